@@ -422,9 +422,72 @@ DoRelease(st, a) ==
 \* ---------- queries ----------
 DoQuery(st, a) == IF EvalQ(a.q, DbOf(st), <<>>).err THEN Fail(st) ELSE Ok(st, 0)
 
+\* ---------- access control (C26) ----------
+\* sec = [on, role, roles, grants]: grants is a set of [r, t, p] with p in {"select", "insert", "update", "delete"}.
+\* Under a non-admin role a statement may run only if the role holds SELECT on every base table it can read rows of -
+\* through FROM, joins, derived tables, CTEs, views (down to their base tables), subqueries in any clause, the source of
+\* INSERT ... SELECT - and the matching write privilege on its target.  Otherwise it fails and changes nothing.
+\* (Refusing a statement although these privileges are present is not a violation of the property: alt = "err".)
+RECURSIVE SubQs(_)
+SeqUnion(sq, f(_)) == UNION { f(sq[i]) : i \in Idxs(sq) }
+SubQs(e) ==
+   CASE e.k \in {"lit", "col", "none", "raw"} -> {}
+     [] e.k \in {"cmp", "arith", "and", "or"} -> SubQs(e.l) \cup SubQs(e.r)
+     [] e.k \in {"not", "neg", "isnull"} -> SubQs(e.l)
+     [] e.k = "between" -> SubQs(e.l) \cup SubQs(e.lo) \cup SubQs(e.hi)
+     [] e.k = "inlist" -> SubQs(e.l) \cup UNION { SubQs(e.vs[i]) : i \in Idxs(e.vs) }
+     [] e.k = "like" -> SubQs(e.l) \cup SubQs(e.p)
+     [] e.k = "coalesce" -> UNION { SubQs(e.vs[i]) : i \in Idxs(e.vs) }
+     [] e.k = "case" -> SubQs(e.els) \cup UNION { SubQs(e.whens[i].c) \cup SubQs(e.whens[i].v) : i \in Idxs(e.whens) }
+     [] e.k = "scase" -> SubQs(e.l) \cup SubQs(e.els) \cup UNION { SubQs(e.whens[i].c) \cup SubQs(e.whens[i].v) : i \in Idxs(e.whens) }
+     [] e.k = "agg" -> IF e.star THEN {} ELSE SubQs(e.arg)
+     [] e.k \in {"scalar", "exists"} -> {e.q}
+     [] e.k = "insub" -> {e.q} \cup SubQs(e.l)
+     [] OTHER -> {}
+RECURSIVE QTables(_,_,_)
+RECURSIVE FromTables(_,_,_)
+\* base tables a query can read rows of; ctes = names bound by an enclosing WITH (they are not tables)
+FromTables(f, st, ctes) ==
+   CASE f.k = "none" -> {}
+     [] f.k = "table" -> IF f.t \in ctes THEN {}
+                         ELSE IF f.t \in DOMAIN st.views THEN QTables(st.views[f.t].q, st, {}) ELSE {f.t}
+     [] f.k = "derived" -> QTables(f.q, st, ctes)
+     [] f.k = "join" -> FromTables(f.l, st, ctes) \cup FromTables(f.r, st, ctes) \cup (IF f.jt \in {"inner", "left"} THEN UNION { QTables(q, st, ctes) : q \in SubQs(f.on) } ELSE {})
+     [] OTHER -> {}
+QTables(q, st, ctes) ==
+   IF q.k = "setop" THEN QTables(q.l, st, ctes) \cup QTables(q.r, st, ctes) ELSE
+   LET names == { q.with[i].n : i \in Idxs(q.with) }
+       inner == ctes \cup names
+       exprs == {q.where, q.having} \cup { q.sel[i].e : i \in Idxs(q.sel) } \cup { q.group[i] : i \in Idxs(q.group) }
+                \cup { q.order[i].e : i \in { i \in Idxs(q.order) : q.order[i].pos = 0 } }
+   IN FromTables(q.from, st, inner)
+      \cup UNION { QTables(q.with[i].q, st, ctes) : i \in Idxs(q.with) }
+      \cup UNION { UNION { QTables(sq, st, inner) : sq \in SubQs(e) } : e \in exprs }
+ExprTables(e, st) == UNION { QTables(sq, st, {}) : sq \in SubQs(e) }
+Needs(st, a) ==
+   CASE a.a \in {"q", "cq"} -> { <<t, "select">> : t \in QTables(a.q, st, {}) }
+     [] a.a = "ins"    -> { <<a.t, "insert">> }
+     [] a.a = "inssel" -> { <<a.t, "insert">> } \cup { <<t, "select">> : t \in QTables(a.q, st, {}) }
+     [] a.a = "upd"    -> { <<a.t, "update">> } \cup { <<t, "select">> : t \in ExprTables(a.w, st) \cup UNION { ExprTables(a.set[i].e, st) : i \in Idxs(a.set) } }
+     [] a.a = "del"    -> { <<a.t, "delete">> } \cup { <<t, "select">> : t \in ExprTables(a.w, st) }
+     [] OTHER -> {}
+Holds(st, need) == \A n \in need : [r |-> st.sec.role, t |-> n[1], p |-> n[2]] \in st.sec.grants
+Restricted(st) == st.sec.on /\ st.sec.role \notin {"", "ADMIN", "DBA"}
+DoGrant(st, a, add) ==
+   IF Restricted(st) THEN Res("unmodelled", st, 0)
+   ELSE IF a.t \notin DOMAIN st.tabs \/ a.r \notin st.sec.roles THEN Fail(st)
+   ELSE Ok([st EXCEPT !.sec.grants = IF add THEN @ \cup {[r |-> a.r, t |-> a.t, p |-> a.p]} ELSE @ \ {[r |-> a.r, t |-> a.t, p |-> a.p]}], 0)
+
 \* ---------- the step function ----------
-Apply(st, a) ==
+Apply0(st, a) ==
    CASE a.a = "reset"    -> Ok(InitSt, 0)
+     [] a.a = "secon"    -> Ok([st EXCEPT !.sec.on = TRUE], 0)
+     [] a.a = "secoff"   -> Ok([st EXCEPT !.sec.on = FALSE], 0)
+     [] a.a = "setrole"  -> Ok([st EXCEPT !.sec.role = a.r], 0)
+     [] a.a = "crole"    -> IF Restricted(st) THEN Res("unmodelled", st, 0)
+                            ELSE IF a.r \in st.sec.roles THEN Fail(st) ELSE Ok([st EXCEPT !.sec.roles = @ \cup {a.r}], 0)
+     [] a.a = "grant"    -> DoGrant(st, a, TRUE)
+     [] a.a = "revoke"   -> DoGrant(st, a, FALSE)
      [] a.a = "ct"       -> DoCreateTable(st, a)
      [] a.a = "dt"       -> DoDropTable(st, a)
      [] a.a = "ins"      -> WithTriggers(st, a, DoInsert(st, a))
@@ -450,11 +513,25 @@ Apply(st, a) ==
      [] a.a = "rollto"   -> DoRollTo(st, a)
      [] a.a = "release"  -> DoRelease(st, a)
      [] a.a = "q"        -> DoQuery(st, a)
+     \* a query answered through the result cache (C25) has exactly the meaning of the query: the cache is invisible
+     [] a.a = "cq"       -> DoQuery(st, a)
      \* persistence (C18, C19): saving and loading back is the identity on tables, rows and index definitions
      [] a.a = "saveload" -> IF st.txn.active THEN Res("unmodelled", st, 0) ELSE Ok(st, 0)
      \* loading a damaged file (C20) either works or returns an error; the running database is not touched
      [] a.a = "corruptload" -> [Ok(st, 0) EXCEPT !.alt = "err"]
      [] OTHER            -> Res("unmodelled", st, 0)
+
+\* the step function under access control
+Apply(st, a) ==
+   IF Restricted(st) /\ a.a \in {"q", "cq", "ins", "inssel", "upd", "del"} THEN
+      IF Holds(st, Needs(st, a)) THEN LET r == Apply0(st, a) IN IF r.out = "ok" /\ r.alt = "" THEN [r EXCEPT !.alt = "err"] ELSE r
+      \* an UPDATE / DELETE that holds the write privilege on its target and lacks SELECT only for a subquery of its
+      \* WHERE / SET clause may also end as a no-op (the refused subquery makes no row qualify): nothing was read or changed
+      ELSE IF a.a \in {"upd", "del"} /\ Holds(st, { n \in Needs(st, a) : n[2] # "select" }) THEN [Fail(st) EXCEPT !.alt = "ok"]
+      ELSE Fail(st)
+   ELSE IF Restricted(st) /\ a.a \notin {"reset", "secon", "secoff", "setrole", "begin", "commit", "rollback", "sp", "rollto", "release"}
+        THEN Res("unmodelled", st, 0)        \* DDL and administration under a restricted role: outside the model
+   ELSE Apply0(st, a)
 
 \* ---------- action constructors (generators use these) ----------
 ColDef(n, ty) == [n |-> n, ty |-> ty, nn |-> FALSE, pk |-> FALSE, uq |-> FALSE, def |-> NoDef]
